@@ -19,7 +19,7 @@ def check(ctx):
         "masks the thread's previous local parent during the poll); R6 what a poll attaches to the bound span waits for that span's "
         "record in the trace's own parked-attachments map (the span's record arrives only at completion, the attachments at "
         "the end of each poll); R7 a scope records iff any item of its token is sampled (a span with parents in a sampled "
-        "and an unsampled trace is an effective local parent).")
+        "and an unsampled trace is an effective local parent). R8 whatever register_span_line stores in the stack besides the new line is stored again on release (no cached flag outlives a nested scope); R9 every queue is read to its end in each cycle and a span set whose trace was released earlier is kept for the stale path on every routing branch (a future that moves between threads leaves its polls in several queues).")
     ctx.explanation += (" R10 the delivery bundle: queues drained to their end with the registry filtered in place, closed = closed and empty, "
                         "stale sets kept unless cancelable, shared sets fanned out to every parent, one sampling filter at the choke point, a scope "
                         "records iff any parent is sampled, setting a local parent opens a scope, no-op only without a recording parent.")
